@@ -15,6 +15,10 @@ func init() {
 
 // remapSwitch finds the tagless switch in f whose cases test variable v (assigned from
 // conversion/range source described by pick) and returns it with v's object.
+func isByteType(t types.Type) bool {
+	return t != nil && (t.String() == "byte" || t.String() == "uint8")
+}
+
 func remapSwitch(f *core.Func, pick func(info *types.Info, sw *ast.SwitchStmt) types.Object) (*ast.SwitchStmt, types.Object) {
 	var res *ast.SwitchStmt
 	var obj types.Object
@@ -61,40 +65,127 @@ func runC20(c *Ctx) {
 	info := c.P.Pkgs["model"].TypesInfo
 
 	// ------------------------------------------------------------------ R1
-	c.Rule("C20-R1", "the BPE byte→rune table (switch in BytePairEncoding.Encode) and rune→byte table (switch in Decode), extracted as piecewise-affine maps by finite-domain abstract interpretation, compose to the identity on every byte 0x01–0xFF; the byte→rune map is injective; no mapped rune is white space or a control character (0x00–0x20, 0x7F–0xA0, 0xAD), so the pre-tokeniser cannot split inside a remapped byte; the decoder's result fits a byte")
+	c.Rule("C20-R1", "the BPE byte→rune table (switch in BytePairEncoding.Encode, or in a function it hands each byte to) and rune→byte table (switch in Decode, or in a function it hands each rune to and whose "skip" answer it obeys), extracted as piecewise-affine maps by finite-domain abstract interpretation, compose to the identity on every byte 0x01–0xFF; the byte→rune map is injective; no mapped rune is white space or a control character (0x00–0x20, 0x7F–0xA0, 0xAD), so the pre-tokeniser cannot split inside a remapped byte; the decoder's result fits a byte")
 	fe, fd := c.Fn("C20-R1", "model", "BytePairEncoding.Encode"), c.Fn("C20-R1", "model", "BytePairEncoding.Decode")
 	if fe != nil && fd != nil {
-		swE, vE := remapSwitch(fe, func(info *types.Info, sw *ast.SwitchStmt) types.Object {
-			v := caseVar(info, sw)
-			if v == nil || v.Type().String() != "rune" && v.Type().String() != "int32" {
-				return nil
+		// the table sits in the codec function or in a function of the package it calls (one level)
+		hostsOf := func(f *core.Func) (hosts []*core.Func, via []*ast.CallExpr) {
+			hosts, via = []*core.Func{f}, []*ast.CallExpr{nil}
+			for _, call := range core.Calls(f.Body, true) {
+				fo, _ := core.Callee(info, call).(*types.Func)
+				if fo == nil {
+					continue
+				}
+				for _, hf := range c.P.FuncsOf("model") {
+					if hf.Obj == fo && hf.Obj != f.Obj {
+						hosts, via = append(hosts, hf), append(via, call)
+					}
+				}
 			}
-			// v := rune(b) with b ranging over []byte(...)
-			okDef := false
-			ast.Inspect(fe.Body, func(n ast.Node) bool {
-				if as, ok := n.(*ast.AssignStmt); ok && as.Tok == token.DEFINE && len(as.Lhs) == 1 {
-					if id, ok := as.Lhs[0].(*ast.Ident); ok && info.Defs[id] == v {
-						if call, ok := ast.Unparen(as.Rhs[0]).(*ast.CallExpr); ok && len(call.Args) == 1 {
-							if t := info.Types[call.Args[0]].Type; t != nil && (t.String() == "byte" || t.String() == "uint8") {
-								okDef = true
+			return
+		}
+		var swE, swD *ast.SwitchStmt
+		var vE, vD types.Object
+		var viaE, viaD *ast.CallExpr
+		hostE, hostD := fe, fd
+		hs, vs := hostsOf(fe)
+		for i, host := range hs {
+			if swE != nil {
+				break
+			}
+			sw, v := remapSwitch(host, func(info *types.Info, sw *ast.SwitchStmt) types.Object {
+				v := caseVar(info, sw)
+				if v == nil || v.Type().String() != "rune" && v.Type().String() != "int32" {
+					return nil
+				}
+				// v := rune(b) with b a byte (ranging over []byte(...), or the helper's parameter)
+				okDef := false
+				ast.Inspect(host.Body, func(n ast.Node) bool {
+					if as, ok := n.(*ast.AssignStmt); ok && as.Tok == token.DEFINE && len(as.Lhs) == 1 {
+						if id, ok := as.Lhs[0].(*ast.Ident); ok && info.Defs[id] == v {
+							if call, ok := ast.Unparen(as.Rhs[0]).(*ast.CallExpr); ok && len(call.Args) == 1 {
+								if t := info.Types[call.Args[0]].Type; t != nil && (t.String() == "byte" || t.String() == "uint8") {
+									okDef = true
+								}
 							}
+						}
+					}
+					return true
+				})
+				if !okDef {
+					return nil
+				}
+				return v
+			})
+			if sw != nil && (vs[i] == nil || (len(vs[i].Args) == 1 && isByteType(info.Types[vs[i].Args[0]].Type))) {
+				swE, vE, hostE, viaE = sw, v, host, vs[i]
+			}
+		}
+		hs, vs = hostsOf(fd)
+		for i, host := range hs {
+			if swD != nil {
+				break
+			}
+			sw, v := remapSwitch(host, func(info *types.Info, sw *ast.SwitchStmt) types.Object {
+				v := caseVar(info, sw)
+				if v == nil || v.Type().String() != "rune" && v.Type().String() != "int32" {
+					return nil
+				}
+				if vs[i] != nil && v != paramAt(host, 0) {
+					return nil
+				}
+				return v
+			})
+			if sw != nil {
+				swD, vD, hostD, viaD = sw, v, host, vs[i]
+			}
+		}
+		// a table in a helper is the helper's whole effect: every return outside the switch hands back the
+		// variable (converted), with ok = true where there is a second result
+		for _, side := range []struct {
+			host *core.Func
+			sw   *ast.SwitchStmt
+			v    types.Object
+			via  *ast.CallExpr
+		}{{hostE, swE, vE, viaE}, {hostD, swD, vD, viaD}} {
+			if side.via == nil || side.sw == nil {
+				continue
+			}
+			bad := ""
+			ast.Inspect(side.host.Body, func(n ast.Node) bool {
+				if n == nil || n == ast.Node(side.sw) {
+					return n != ast.Node(side.sw)
+				}
+				switch x := n.(type) {
+				case *ast.FuncLit:
+					return false
+				case *ast.ReturnStmt:
+					okRet := len(x.Results) >= 1
+					if okRet {
+						r := ast.Unparen(x.Results[0])
+						if call, isC := r.(*ast.CallExpr); isC && len(call.Args) == 1 && info.Types[call.Fun].IsType() {
+							r = ast.Unparen(call.Args[0])
+						}
+						okRet = isIdentOf(info, r, side.v)
+					}
+					if okRet && len(x.Results) == 2 {
+						id, isID := ast.Unparen(x.Results[1]).(*ast.Ident)
+						okRet = isID && id.Name == "true"
+					}
+					if !okRet {
+						bad = "return at " + c.Pos(x) + " does not hand back the remapped value"
+					}
+				case *ast.AssignStmt:
+					for _, l := range x.Lhs {
+						if isIdentOf(info, l, side.v) && x.Tok != token.DEFINE {
+							bad = "the value is changed outside the table at " + c.Pos(x)
 						}
 					}
 				}
 				return true
 			})
-			if !okDef {
-				return nil
-			}
-			return v
-		})
-		swD, vD := remapSwitch(fd, func(info *types.Info, sw *ast.SwitchStmt) types.Object {
-			v := caseVar(info, sw)
-			if v == nil || v.Type().String() != "rune" && v.Type().String() != "int32" {
-				return nil
-			}
-			return v
-		})
+			c.Check("C20-R1", side.host.Key()+" helper returns the table's value", c.Pos(side.sw), bad == "", bad)
+		}
 		if swE == nil || swD == nil {
 			c.Undecided("C20-R1", "anchor:remap switches", "-", "anchor lost: tagless switch over rune(b) in Encode / over the decoded rune in Decode")
 		} else {
@@ -185,17 +276,49 @@ func runC20(c *Ctx) {
 				c.Check("C20-R1", fd.Key()+" decoded value fits a byte", c.Pos(swD), out.Minus(core.NewIvSet(core.Iv{Lo: 0, Hi: 255})).Empty(), "decoder can produce "+out.Minus(core.NewIvSet(core.Iv{Lo: 0, Hi: 255})).String())
 			}
 			// the encoder writes the remapped rune, the decoder the remapped byte
+			// what the codec loop holds after the table: the variable itself, or the helper's result
+			var resE, resD, okD types.Object
+			resE, resD = vE, vD
+			if viaE != nil {
+				resE = nil
+				if top := stmtOf(fe, viaE); top != nil {
+					resE = core.ResultVar(info, top, viaE, 0)
+				}
+			}
+			if viaD != nil {
+				resD = nil
+				if top := stmtOf(fd, viaD); top != nil {
+					resD = core.ResultVar(info, top, viaD, 0)
+					okD = core.ResultVar(info, top, viaD, 1)
+				}
+			}
+			isRes := func(e ast.Expr, res types.Object, via *ast.CallExpr) bool {
+				if via != nil && ast.Unparen(e) == ast.Expr(via) {
+					return true
+				}
+				return res != nil && core.UsesObj(info, e, res)
+			}
 			okW := false
 			ast.Inspect(fe.Body, func(n ast.Node) bool {
-				if call, ok := n.(*ast.CallExpr); ok && core.CalleeName(info, call) == "strings.Builder.WriteRune" && core.UsesObj(info, call.Args[0], vE) {
+				if call, ok := n.(*ast.CallExpr); ok && core.CalleeName(info, call) == "strings.Builder.WriteRune" && isRes(call.Args[0], resE, viaE) {
 					okW = true
 				}
 				return true
 			})
 			okWD := false
+			gd := c.G(fd)
 			ast.Inspect(fd.Body, func(n ast.Node) bool {
-				if call, ok := n.(*ast.CallExpr); ok && core.CalleeName(info, call) == "strings.Builder.WriteByte" && core.UsesObj(info, call.Args[0], vD) {
+				if call, ok := n.(*ast.CallExpr); ok && core.CalleeName(info, call) == "strings.Builder.WriteByte" && isRes(call.Args[0], resD, viaD) {
 					okWD = true
+					// a helper that reports "skip" through its second result is obeyed
+					if viaD != nil && hostD.Type.Results != nil && hostD.Type.Results.NumFields() == 2 {
+						okWD = false
+						for _, a := range gd.AtomsAt(gd.Locate(call)) {
+							if okD != nil && isIdentOf(info, a.Expr, okD) && a.Val {
+								okWD = true
+							}
+						}
+					}
 				}
 				return true
 			})
@@ -207,7 +330,12 @@ func runC20(c *Ctx) {
 				sw    ast.Node
 				write string
 				v     types.Object
-			}{{fe, swE, "strings.Builder.WriteRune", vE}, {fd, swD, "strings.Builder.WriteByte", vD}} {
+				via   *ast.CallExpr
+				okVar types.Object
+			}{{fe, swE, "strings.Builder.WriteRune", resE, viaE, nil}, {fd, swD, "strings.Builder.WriteByte", resD, viaD, okD}} {
+				if side.via != nil {
+					side.sw = side.via
+				}
 				var loop *ast.RangeStmt
 				for _, rl := range rangeLoops(side.f) {
 					if within(rl.Stmt, side.sw) && (loop == nil || within(loop, rl.Stmt)) {
@@ -228,11 +356,23 @@ func runC20(c *Ctx) {
 					}
 					switch x := n.(type) {
 					case *ast.BranchStmt:
-						bad = x.Tok.String() + " at " + c.Pos(x) + " bypasses the table"
+						// the helper's "skip" answer is the one way round the write
+						obeys := false
+						if side.okVar != nil && x.Tok == token.CONTINUE {
+							gs := c.G(side.f)
+							for _, a := range gs.AtomsAt(gs.Locate(x)) {
+								if isIdentOf(info, a.Expr, side.okVar) && !a.Val {
+									obeys = true
+								}
+							}
+						}
+						if !obeys {
+							bad = x.Tok.String() + " at " + c.Pos(x) + " bypasses the table"
+						}
 					case *ast.CallExpr:
 						name := core.CalleeName(info, x)
 						if strings.HasPrefix(name, "strings.Builder.Write") {
-							if name != side.write || len(x.Args) != 1 || !core.UsesObj(info, x.Args[0], side.v) {
+							if name != side.write || len(x.Args) != 1 || !isRes(x.Args[0], side.v, side.via) {
 								bad = "additional write " + core.ExprString(x) + " at " + c.Pos(x)
 							}
 						}
@@ -246,7 +386,7 @@ func runC20(c *Ctx) {
 
 	// ------------------------------------------------------------------ R2 / R3
 	c.Rule("C20-R2", "ids only from guarded look-ups: every value appended to ids in both Encode functions is the result of vocab.Encode on its `>= 0` edge, the ids of a special-token fragment (filled only with vocab.Encode of a string taken from SpecialVocabulary), a byte-fallback list built from guarded look-ups, or vocab.BOS / vocab.EOS")
-	c.Rule("C20-R3", "specials first: the special-token splitting loop dominates the pre-tokeniser / merge loop, a fragment is skipped in it only when it already carries ids, and fragments with ids bypass pre-tokenising")
+	c.Rule("C20-R3", "specials first: the special-token splitting loop dominates the pre-tokeniser / merge loop, a fragment is skipped in it only when it already carries ids or does not contain the literal, the pieces spliced in are exactly prefix / literal / rest on every path from the search to the splice, and fragments with ids bypass pre-tokenising")
 	for _, fname := range []string{"BytePairEncoding.Encode", "SentencePieceModel.Encode"} {
 		f := c.Fn("C20-R2", "model", fname)
 		if f == nil {
@@ -360,7 +500,50 @@ func runC20(c *Ctx) {
 			continue
 		}
 		c.Check("C20-R3", f.Key()+" special splitting precedes tokenising", c.Pos(special), g.Dominates(g.Locate(special.X), g.Locate(tokenise.X)) && !g.Reaches(g.Locate(tokenise.X), g.Locate(special.X)), "the loop over SpecialVocabulary must run to completion before the fragment loop")
-		// continues inside the special loop only for fragments that already have ids
+		// the search for the literal: idx := strings.Index(<fragment>.value, <literal>) inside the special loop
+		var idxObj, specialVar types.Object
+		var idxLoc core.Loc
+		if vid, isV := special.Value.(*ast.Ident); isV {
+			specialVar = info.Defs[vid]
+		}
+		for _, h := range g.Find(func(n ast.Node) bool {
+			as, ok := n.(*ast.AssignStmt)
+			return ok && within(special, as) && len(as.Lhs) == 1 && len(as.Rhs) == 1 && len(core.CallsTo(info, as.Rhs[0], false, "strings.Index")) == 1
+		}) {
+			as := h.Node.(*ast.AssignStmt)
+			call := core.CallsTo(info, as.Rhs[0], false, "strings.Index")[0]
+			if id, isID := as.Lhs[0].(*ast.Ident); isID && ast.Unparen(as.Rhs[0]) == ast.Expr(call) && selName(call.Args[0]) == "value" && specialVar != nil && isIdentOf(info, call.Args[1], specialVar) {
+				idxObj, idxLoc = info.ObjectOf(id), h.Loc
+			}
+		}
+		// sign of the comparison `idx op k` for idx = v
+		idxCmp := func(e ast.Expr, v int64) (val, ok bool) {
+			be, isB := ast.Unparen(e).(*ast.BinaryExpr)
+			if !isB || idxObj == nil {
+				return false, false
+			}
+			_, y, op, okO := core.Orient(be, func(x ast.Expr) bool { return isIdentOf(info, x, idxObj) })
+			k, isK := core.ConstInt(info, y)
+			if !okO || !isK {
+				return false, false
+			}
+			switch op {
+			case token.LSS:
+				return v < k, true
+			case token.LEQ:
+				return v <= k, true
+			case token.GTR:
+				return v > k, true
+			case token.GEQ:
+				return v >= k, true
+			case token.EQL:
+				return v == k, true
+			case token.NEQ:
+				return v != k, true
+			}
+			return false, false
+		}
+		// continues inside the special loop only for fragments that already have ids, or that do not contain the literal
 		for _, br := range g.Find(func(n ast.Node) bool {
 			b, ok := n.(*ast.BranchStmt)
 			return ok && within(special, b) && (b.Tok == token.CONTINUE || b.Tok == token.BREAK)
@@ -372,40 +555,171 @@ func runC20(c *Ctx) {
 						ok = true
 					}
 				}
+				// idx < 0 (the literal is absent): the edge is taken for -1 and for no idx >= 0
+				if v1, ok1 := idxCmp(a.Expr, -1); ok1 && v1 == a.Val {
+					v2, _ := idxCmp(a.Expr, 0)
+					v3, _ := idxCmp(a.Expr, 1<<40)
+					if v2 != a.Val && v3 != a.Val {
+						ok = true
+					}
+				}
 			}
 			c.Check("C20-R3", f.Key()+" fragment skipped in the special loop only when it has ids", c.Pos(br.Node), ok, "a fragment without ids must always be searched for the special literal (a length shortcut can skip a fragment that is exactly the literal)")
 		}
-		// the split uses strings.Index(frag.value, special) and the three cases: <0 keep, >0 prefix+fallthrough, default literal+rest
-		okSplit := false
-		ast.Inspect(special.Body, func(n ast.Node) bool {
-			sw, ok := n.(*ast.SwitchStmt)
-			if !ok || sw.Init == nil || sw.Tag != nil {
-				return true
+		// the split, read off the paths from the search to the statement that splices the pieces in: with the
+		// literal absent nothing is cut; at position 0 the pieces are literal [, rest]; further in, prefix, literal
+		// [, rest]; the rest may be left out only on the edge that found it empty
+		okSplit, whySplit := false, "anchor lost: idx := strings.Index(fragment.value, literal) and the splice of the pieces"
+		var splice *core.Hit
+		for _, h := range g.Find(func(n ast.Node) bool {
+			as, ok := n.(*ast.AssignStmt)
+			if !ok || !within(special, as) || len(as.Lhs) != 1 || len(as.Rhs) != 1 {
+				return false
 			}
-			if len(core.CallsTo(info, sw.Init, false, "strings.Index")) != 1 || len(sw.Body.List) != 3 {
-				return true
+			id, isID := as.Lhs[0].(*ast.Ident)
+			if !isID || info.ObjectOf(id) == nil || !isSliceOf(info.ObjectOf(id).Type(), "model.fragment") {
+				return false
 			}
-			c0, c1, c2 := sw.Body.List[0].(*ast.CaseClause), sw.Body.List[1].(*ast.CaseClause), sw.Body.List[2].(*ast.CaseClause)
-			cmp0 := func(e ast.Expr, want token.Token) bool {
-				be, ok := ast.Unparen(e).(*ast.BinaryExpr)
-				if !ok {
+			// fragments = append(fragments[:i], …): mentions a slice of itself
+			self := false
+			ast.Inspect(as.Rhs[0], func(m ast.Node) bool {
+				if se, isSe := m.(*ast.SliceExpr); isSe && isIdentOf(info, se.X, info.ObjectOf(id)) {
+					self = true
+				}
+				return true
+			})
+			return self
+		}) {
+			hh := h
+			splice = &hh
+		}
+		if idxObj != nil && splice != nil {
+			classify := func(el ast.Expr) string {
+				el = ast.Unparen(el)
+				if id, isID := el.(*ast.Ident); isID {
+					if v, isV := info.ObjectOf(id).(*types.Var); isV && core.ObjNameOfType(v.Type()) == "model.fragment" {
+						return "whole"
+					}
+				}
+				cl, isCL := el.(*ast.CompositeLit)
+				if !isCL || core.ObjNameOfType(info.TypeOf(cl)) != "model.fragment" {
+					return "other"
+				}
+				var val ast.Expr
+				for _, e := range cl.Elts {
+					kv, isKV := e.(*ast.KeyValueExpr)
+					if !isKV {
+						return "other"
+					}
+					switch k, _ := kv.Key.(*ast.Ident); {
+					case k != nil && k.Name == "ids":
+						return "lit"
+					case k != nil && k.Name == "value":
+						val = kv.Value
+					}
+				}
+				if val == nil {
+					return "other"
+				}
+				val = ast.Unparen(val)
+				if id, isID := val.(*ast.Ident); isID {
+					if rhs, ix, n := singleDef(info, special.Body, info.ObjectOf(id)); n == 1 && ix == -1 {
+						val = ast.Unparen(rhs)
+					}
+				}
+				se, isSe := val.(*ast.SliceExpr)
+				if !isSe || selName(se.X) != "value" {
+					return "other"
+				}
+				switch {
+				case se.Low == nil && se.High != nil && isIdentOf(info, se.High, idxObj):
+					return "prefix"
+				case se.High == nil && se.Low != nil:
+					// idx + len(literal)
+					if be, isB := ast.Unparen(se.Low).(*ast.BinaryExpr); isB && be.Op == token.ADD {
+						x, y := be.X, be.Y
+						if !isIdentOf(info, x, idxObj) {
+							x, y = y, x
+						}
+						if p, isLen := isLenOf(info, y); isIdentOf(info, x, idxObj) && isLen && p.Root == specialVar && len(p.Fields) == 0 {
+							return "rest"
+						}
+					}
+				}
+				return "other"
+			}
+			// the local that holds the rest, for the emptiness test
+			isRestVar := func(e ast.Expr) bool {
+				id, isID := ast.Unparen(e).(*ast.Ident)
+				if !isID {
 					return false
 				}
-				v, isC := core.ConstInt(info, be.Y)
-				return isC && v == 0 && be.Op == want
+				rhs, ix, n := singleDef(info, special.Body, info.ObjectOf(id))
+				if n != 1 || ix != -1 {
+					return false
+				}
+				se, isSe := ast.Unparen(rhs).(*ast.SliceExpr)
+				return isSe && se.High == nil && se.Low != nil && selName(se.X) == "value"
 			}
-			lt := len(c0.List) == 1 && cmp0(c0.List[0], token.LSS)
-			gt := len(c1.List) == 1 && cmp0(c1.List[0], token.GTR)
-			ft := false
-			if len(c1.Body) > 0 {
-				if b, isB := c1.Body[len(c1.Body)-1].(*ast.BranchStmt); isB && b.Tok == token.FALLTHROUGH {
-					ft = true
+			paths, complete := g.PathsTo(idxLoc, splice.Loc, 4000)
+			okSplit, whySplit = complete && len(paths) > 0, "path enumeration incomplete"
+			seen := map[string]bool{}
+			for _, path := range paths {
+				feasible := map[string]bool{"absent": true, "first": true, "inside": true}
+				rep := map[string]int64{"absent": -1, "first": 0, "inside": 7}
+				restEmpty := false
+				var seq []string
+				for _, st := range path {
+					if e, isE := st.Node.(ast.Expr); isE && st.Edge >= 0 {
+						for cls, v := range rep {
+							if val, ok := idxCmp(e, v); ok && val != (st.Edge == 0) {
+								feasible[cls] = false
+							}
+						}
+						if be, isB := ast.Unparen(e).(*ast.BinaryExpr); isB && (be.Op == token.NEQ || be.Op == token.EQL) {
+							if sv, isS := core.ConstString(info, be.Y); isS && sv == "" && isRestVar(be.X) {
+								if (be.Op == token.NEQ) == (st.Edge == 1) {
+									restEmpty = true
+								}
+							}
+						}
+					}
+					if as, isAs := st.Node.(*ast.AssignStmt); isAs && len(as.Rhs) == 1 {
+						if call, isC := ast.Unparen(as.Rhs[0]).(*ast.CallExpr); isC && core.CalleeName(info, call) == "builtin.append" && len(call.Args) >= 2 && !call.Ellipsis.IsValid() {
+							if id, isID := as.Lhs[0].(*ast.Ident); isID && info.ObjectOf(id) != nil && isSliceOf(info.ObjectOf(id).Type(), "model.fragment") {
+								for _, el := range call.Args[1:] {
+									seq = append(seq, classify(el))
+								}
+							}
+						}
+					}
+				}
+				got := strings.Join(seq, ",")
+				for cls, fz := range feasible {
+					if !fz {
+						continue
+					}
+					seen[cls] = true
+					good := false
+					switch cls {
+					case "absent":
+						good = got == "" || got == "whole"
+					case "first":
+						good = got == "lit,rest" || (got == "lit" && restEmpty)
+					case "inside":
+						good = got == "prefix,lit,rest" || (got == "prefix,lit" && restEmpty)
+					}
+					if !good {
+						okSplit = false
+						whySplit = "with the literal " + cls + " a path splices in [" + got + "]"
+					}
 				}
 			}
-			okSplit = lt && gt && ft && c2.List == nil
-			return true
-		})
-		c.Check("C20-R3", f.Key()+" split cases: absent / prefix+literal / literal", c.Pos(special), okSplit, "the split switch must keep the fragment when the literal is absent, emit the prefix and fall through when it is inside, and emit the literal (with its id) and the rest otherwise")
+			if okSplit && !(seen["first"] && seen["inside"]) {
+				okSplit, whySplit = false, "no path splits a fragment that starts with / contains the literal"
+			}
+		}
+		c.Check("C20-R3", f.Key()+" split cases: absent / prefix+literal / literal", c.Pos(special), okSplit, "the pieces spliced in must be: nothing new when the literal is absent; literal [+ rest] when it starts the fragment; prefix, literal [+ rest] otherwise; the rest left out only when empty — "+whySplit)
 		// fragments with ids bypass tokenising: first statement of the fragment loop
 		okBy := false
 		if len(tokenise.Body.List) > 0 {
@@ -432,55 +746,101 @@ func runC20(c *Ctx) {
 	c.Rule("C20-R4", "SPM byte tokens: the format used for fall-back tokens (\"<0x%02X>\": six characters, zero padded, upper-case hex) and the constants of the parser in Decode (length 6, prefix \"<0x\", suffix \">\", digits [1:5] parsed with base 0 into 8 bits) describe the same shape")
 	if f := c.Fn("C20-R4", "model", "SentencePieceModel.Encode"); f != nil {
 		n := 0
-		for _, call := range core.CallsTo(info, f.Body, true, "fmt.Sprintf") {
-			if s, ok := core.ConstString(info, call.Args[0]); ok && strings.Contains(s, "0x") {
-				n++
-				okT := len(call.Args) == 2 && info.Types[call.Args[1]].Type != nil && (info.Types[call.Args[1]].Type.String() == "byte" || info.Types[call.Args[1]].Type.String() == "uint8")
-				c.Check("C20-R4", f.Key()+" byte-token format", c.Pos(call), s == "<0x%02X>" && okT, "found format "+s)
+		// the format is applied in Encode or in a function of the package that Encode hands a byte to
+		hosts := []*core.Func{f}
+		for _, call := range core.Calls(f.Body, true) {
+			if fo, _ := core.Callee(info, call).(*types.Func); fo != nil && len(call.Args) == 1 && isByteType(info.Types[call.Args[0]].Type) {
+				for _, hf := range c.P.FuncsOf("model") {
+					if hf.Obj == fo {
+						hosts = append(hosts, hf)
+					}
+				}
 			}
+		}
+		for _, host := range hosts {
+			for _, call := range core.CallsTo(info, host.Body, true, "fmt.Sprintf") {
+				if s, ok := core.ConstString(info, call.Args[0]); ok && strings.Contains(s, "0x") {
+					n++
+					okT := len(call.Args) == 2 && isByteType(info.Types[call.Args[1]].Type)
+					c.Check("C20-R4", host.Key()+" byte-token format", c.Pos(call), s == "<0x%02X>" && okT, "found format "+s)
+				}
+			}
+			// the other spelling: string([]byte{'<', '0', 'x', D[b>>4], D[b&0x0f], '>'}) with D = "0123456789ABCDEF"
+			ast.Inspect(host.Body, func(nd ast.Node) bool {
+				cl, ok := nd.(*ast.CompositeLit)
+				if !ok || len(cl.Elts) != 6 {
+					return true
+				}
+				if sl, isSl := info.TypeOf(cl).Underlying().(*types.Slice); !isSl || !isByteType(sl.Elem()) {
+					return true
+				}
+				chr := func(e ast.Expr, want int64) bool { v, isC := core.ConstInt(info, e); return isC && v == want }
+				digit := func(e ast.Expr, high bool) bool {
+					ix, isIx := ast.Unparen(e).(*ast.IndexExpr)
+					if !isIx {
+						return false
+					}
+					if d, isS := core.ConstString(info, ix.X); !isS || d != "0123456789ABCDEF" {
+						return false
+					}
+					be, isB := ast.Unparen(ix.Index).(*ast.BinaryExpr)
+					if !isB || !isByteType(info.TypeOf(be.X)) {
+						return false
+					}
+					k, isK := core.ConstInt(info, be.Y)
+					switch {
+					case high:
+						return isK && ((be.Op == token.SHR && k == 4) || (be.Op == token.QUO && k == 16))
+					default:
+						return isK && ((be.Op == token.AND && k == 15) || (be.Op == token.REM && k == 16))
+					}
+				}
+				if !(chr(cl.Elts[0], '<') && chr(cl.Elts[1], '0') && chr(cl.Elts[2], 'x')) {
+					return true
+				}
+				n++
+				c.Check("C20-R4", host.Key()+" byte-token format", c.Pos(cl), digit(cl.Elts[3], true) && digit(cl.Elts[4], false) && chr(cl.Elts[5], '>'), "hand-built byte token is not '<0x' + two upper-case hex digits (high nibble first) + '>'")
+				return true
+			})
 		}
 		c.Expect("C20-R4", "byte-token format sites in SPM Encode", n, 1)
 		// the formatted token is what is looked up
 	}
 	if f := c.Fn("C20-R4", "model", "SentencePieceModel.Decode"); f != nil {
 		g := c.G(f)
-		okShape := false
-		for _, cb := range g.CondBlocks() {
-			// len(x) == 6 && HasPrefix(x, "<0x") && HasSuffix(x, ">") on one variable x
+		// at the parse: len(x) == 6, HasPrefix(x, "<0x"), HasSuffix(x, ">") are known of one variable x
+		// (whichever way round the test is written), and the digits parsed are x[1:5], base 0, 8 bits
+		okShape, okParse := false, false
+		for _, h := range g.FindCalls("strconv.ParseUint") {
+			call := h.Node.(*ast.CallExpr)
 			var lenV, preV, sufV types.Object
-			for _, a := range core.Atoms([]core.Fact{{Expr: cb.Cond, Val: true}}) {
-				if !a.Val {
-					continue
-				}
-				if be, isB := ast.Unparen(a.Expr).(*ast.BinaryExpr); isB && be.Op == token.EQL {
+			for _, a := range g.AtomsAt(h.Loc) {
+				if be, isB := ast.Unparen(a.Expr).(*ast.BinaryExpr); isB && ((be.Op == token.EQL && a.Val) || (be.Op == token.NEQ && !a.Val)) {
 					if p, isLen := isLenOf(info, be.X); isLen && len(p.Fields) == 0 {
 						if v, isC := core.ConstInt(info, be.Y); isC && v == 6 {
 							lenV = p.Root
 						}
 					}
 				}
-				if call, isC := ast.Unparen(a.Expr).(*ast.CallExpr); isC && len(call.Args) == 2 {
-					lit, _ := core.ConstString(info, call.Args[1])
+				if cl, isC := ast.Unparen(a.Expr).(*ast.CallExpr); isC && len(cl.Args) == 2 && a.Val {
+					lit, _ := core.ConstString(info, cl.Args[1])
 					switch {
-					case core.CalleeName(info, call) == "strings.HasPrefix" && lit == "<0x":
-						preV = core.PathOf(info, call.Args[0]).Root
-					case core.CalleeName(info, call) == "strings.HasSuffix" && lit == ">":
-						sufV = core.PathOf(info, call.Args[0]).Root
+					case core.CalleeName(info, cl) == "strings.HasPrefix" && lit == "<0x":
+						preV = core.PathOf(info, cl.Args[0]).Root
+					case core.CalleeName(info, cl) == "strings.HasSuffix" && lit == ">":
+						sufV = core.PathOf(info, cl.Args[0]).Root
 					}
 				}
 			}
 			if lenV != nil && lenV == preV && lenV == sufV {
 				okShape = true
 			}
-		}
-		okParse := false
-		for _, call := range core.CallsTo(info, f.Body, false, "strconv.ParseUint") {
-			if se, ok := ast.Unparen(call.Args[0]).(*ast.SliceExpr); ok {
+			if se, ok := ast.Unparen(call.Args[0]).(*ast.SliceExpr); ok && se.Low != nil && se.High != nil {
 				lo, ok1 := core.ConstInt(info, se.Low)
 				hi, ok2 := core.ConstInt(info, se.High)
 				base, ok3 := core.ConstInt(info, call.Args[1])
 				bits, ok4 := core.ConstInt(info, call.Args[2])
-				if ok1 && ok2 && ok3 && ok4 && lo == 1 && hi == 5 && base == 0 && bits == 8 {
+				if ok1 && ok2 && ok3 && ok4 && lo == 1 && hi == 5 && base == 0 && bits == 8 && lenV != nil && isIdentOf(info, se.X, lenV) {
 					okParse = true
 				}
 			}
